@@ -17,7 +17,7 @@ from ..core import (
     place_fields,
     self_fields_read,
 )
-from ..flow import conditions, consumers
+from ..flow import conditions, consumers, on_some_arm, on_none_arm
 from ..census import field_uses, find_fields
 
 LABEL = "utils::label::Label"
@@ -107,6 +107,21 @@ def rule_label_ops(ctx):
                     for o in origins(fn, s.node["args"][0], transparent=()):
                         if o.kind == "call" and callee_matches(o.data, r"hash::map::HashMap::entry$"):
                             in_entry = True
+        if not in_entry:
+            # `if let Entry::Vacant(e) = map.entry(label) { labels.push(..); e.insert(id) }`
+            ent = None
+            for pth, e in prog.ext_enums.items():
+                if pth.endswith("collections::hash::map::Entry"):
+                    ent = {str(v["discr"]): v["name"] for v in e["variants"]}
+            for c in conditions(b, u.site.bb):
+                if not c.is_discr or ent is None:
+                    continue
+                if any(o.kind == "call" and callee_matches(o.data, r"hash::map::HashMap::entry$") for o in origins(b, c.place, transparent=())):
+                    vs = {ent.get(v, v) for v in c.values}
+                    if c.negated:
+                        vs = set(ent.values()) - vs
+                    if vs == {"Vacant"}:
+                        in_entry = True
         r.check(in_entry, "%s.%s|push" % (owner, fld), "push-outside-entry", "label pushed only when the map entry is vacant (or_insert_with closure)", "a label is pushed outside `entry(..).or_insert_with`: inserting an existing label would create a second id", u.site.loc())
         # pushed value = Some(Label::new(len(labels), ..))
         ok_id = False
@@ -163,10 +178,24 @@ def rule_removed_counter(ctx):
         b = u.site.body
         guarded = False
         for c in conditions(b, u.site.bb):
-            if c.is_discr and not c.negated and c.values == ["1"]:
+            if on_some_arm(c):
                 for o in origins(b, c.place, transparent=()):
                     if o.kind == "call" and callee_matches(o.data, r"hash::map::HashMap::remove$"):
                         guarded = True
+        if not guarded and b.kind != "closure" and not any(c.is_discr for c in conditions(b, u.site.bb)):
+            # a private helper (`tombstone_slot`) that runs on every call: judge its call sites
+            css = prog.callers_of(b)
+            okc = bool(css)
+            for cs in css:
+                g2 = False
+                for c in conditions(cs.body, cs.bb):
+                    if on_some_arm(c):
+                        for o in origins(cs.body, c.place, transparent=()):
+                            if o.kind == "call" and callee_matches(o.data, r"hash::map::HashMap::remove$"):
+                                g2 = True
+                okc = okc and g2
+            sigp = prog.sigs.get(("lib", b.path))
+            guarded = okc and sigp is not None and sigp["vis"] != "pub"
         r.check(guarded, owner + "." + cnt, "unguarded-increment", "increment is on the Some arm of map.remove", "the removed-labels counter is incremented on a path where nothing was removed", u.site.loc())
         # the same arm tombstones the slot
         takes = [x for x in _muts(prog, owner, fields["labels"][1]) if x.op.endswith("Option::take") and x.site.body is b]
@@ -419,7 +448,7 @@ def error_before_mutation_ok(prog, b, _stack=()):
                     # the error exit must be on the failure (None) arm of this call's result
                     on_none = False
                     for c in conditions(b, es.bb):
-                        if c.is_discr and not c.negated and c.values == ["0"]:
+                        if on_none_arm(c):
                             for o in origins(b, c.place, transparent=()):
                                 if o.kind == "call" and o.site.bb == ms.bb:
                                     on_none = True
@@ -524,5 +553,7 @@ def rule_iterators_filter(ctx):
                         cb = prog.lib(cp)
                         if cb and any(callee_matches(callee_of(x), r"^core::option::Option::as_ref$") for x in cb.calls()):
                             ok = True
+                if callee_matches(c, r"iterator::Iterator::flatten$") and "Option<" in str(c.get("substs")):
+                    ok = True  # `iter().flatten()` over Option slots yields the Some entries only
             r.check(ok, b.id, "no-filter", "%s filters tombstones" % b.path, "%s iterates the %s vector without skipping removed entries" % (b.path, key), b.loc())
     r.floor(n, 4, "iterator functions over the label / attack vectors")
